@@ -251,6 +251,8 @@ info('C18',
      'complete(new) of output and backup; POSIX contracts for exists/unlink/rename; _save_to_file interruptible): an obligation at every '
      'crash point, plus the normal-exit state; the real control flow of save_results is executed symbolically; '
      'Simulation.fix_output_filenames on a resume never destroys a complete file. '
+     'IterativeSweeps.run: checkpoints (where simulations save and measure) are emitted exactly between two iterations of the same '
+     'run() call - a resumed engine does not repeat the checkpoint it was resumed from. '
      'B (bounded, labelled fault enumeration): the same on the real file system (pickle and HDF5, byte prefixes), and resume from every '
      'early checkpoint of a TEBD time evolution and a two-site DMRG ground-state search compared with the uninterrupted run.',
      ['whole-run equality (resume == uninterrupted) is a history property: bounded only',
